@@ -1164,8 +1164,17 @@ def _stdin_fix(
 
     exit_code = _handle_unparsable(fix_even_unparsable, exit_code, result, formatter)
 
-    if result.num_violations(types=SQLLintError, fixable=True) > 0:
-        stdout = result.paths[0].files[0].fix_string()[0]
+    # NOTE: Warning-level violations are still fixed, as `persist_tree` does
+    # for files fixed by path.
+    linted_files = result.paths[0].files
+    if (
+        linted_files
+        and linted_files[0].num_violations(
+            types=SQLLintError, fixable=True, filter_warning=False
+        )
+        > 0
+    ):
+        stdout = linted_files[0].fix_string()[0]
     else:
         stdout = stdin
 
